@@ -96,7 +96,9 @@ def execute(ctx, cases, corr):
         corr["evaluations"] += 1
         k = c.kind + ":" + (c.tag or "-")
         stats[k] = stats.get(k, 0) + 1
-        oc = "outcome:" + c.impl.split(" ")[0] + (" " + c.impl.split(" ")[1] if c.impl.startswith("err") and " " in c.impl else "")
+        w = c.impl.split(" ")
+        oc = "outcome:" + (w[0] if w[0] in ("ok", "err", "panic", "abort", "bad-case", "-") else "bytes") + \
+             (" " + w[1] if w[0] == "err" and len(w) > 1 else "")
         stats[oc] = stats.get(oc, 0) + 1
         if c.nontrivial and not c.impl.startswith("bad-case") and c.hline not in seen:
             seen.add(c.hline)
@@ -201,9 +203,131 @@ def cases_c18(ctx, boost):
     return out
 
 
+# =============================================================================== C17
+HARNESS_CAPS = sorted(set(list(range(1, 41)) + [48, 62, 63, 64, 65, 66, 100, 126, 127, 128, 129, 130, 200, 254, 255, 256,
+                                                257, 258, 300, 400, 510, 511, 512, 513, 514, 700, 1022, 1023, 1024, 1025,
+                                                1026, 1500, 2046, 2047, 2048, 2049, 2050, 3070, 3071, 3072, 3073, 3074,
+                                                4094, 4095, 4096, 4097, 4098, 4400, 7609, 8192]))
+
+
+def resp_values(g, variant, key, n):
+    """interesting response values for a variant: minimal, random, and large ones"""
+    t = {"named": key}
+    vals = [g.s.min_value(t)]
+    for _ in range(n):
+        v = g.rand_val(t, p_opt=g.rng.choice([0.0, 0.3, 0.7, 1.0]))
+        if g.val_buildable(t, v):
+            vals.append(v)
+    return vals
+
+
+def cases_c17(ctx, boost):
+    out = []
+    for cfg in ctx.cfgs(("000", "111")):
+        g = ctx.gen(cfg)
+        rng = g.rng
+        sj = ctx.data["schemas"][cfg]
+        for variant, payload in sj["variants"]["response_variants"]:
+            if payload is None:
+                for cap in (1, 2, 3, 64, 7609):
+                    for prior in ("-", "ee" * min(cap, 5), "ee" * cap):
+                        out.append(Case("resp", cfg, f"resp {cfg} {variant} - {cap} {prior}", tag="empty kind"))
+                continue
+            vals = resp_values(g, variant, payload, 6 * boost)
+            if variant == "LargeBlobs":
+                capn = g.s.res({"named": payload})["fields"][0]["ty"]["cap"]
+                for L in sorted({min(capn, x) for x in (0, 1, 23, 24, 59, 250, 1019, 2042, capn)}):
+                    vals.append(('r', [('x', rng.randbytes(L))]))
+            for v in vals:
+                body = g.s.ref_encode({"named": payload}, v, canonical=False)
+                size = 1 + len(body)
+                caps = {1, 2, 3, 64, 256, 1024, 3072, 7609}
+                caps |= {c for c in HARNESS_CAPS if size - 2 <= c <= size + 2}
+                for cap in sorted(caps):
+                    priors = ["-", ("ee" * (cap // 2)) or "-", "ee" * cap] if cap <= 300 else ["-", "ee" * cap]
+                    for prior in priors[: (3 if cap <= size + 2 else 1)]:
+                        out.append(Case("resp", cfg, f"resp {cfg} {variant} {show(v)} {cap} {prior}",
+                                        tag="window" if abs(cap - size) <= 2 else "fixed cap"))
+    return out
+
+
+# =============================================================================== C07
+def cases_c07(ctx, boost):
+    out = []
+    for cfg in ctx.cfgs(("000", "111")):
+        g = ctx.gen(cfg)
+        rng = g.rng
+        counters = [0, 1, 0xFF, 0x100, 0x01020304, 0xFFFFFFFF]
+
+        def ext_vals(fl):
+            t = {"named": g.s.roles["adExt" + fl]}
+            n = len(g.s.res(t)["fields"])
+            vals = ["-"]
+            for m in range(1 << n):           # every subset of extension outputs
+                v = g.rand_val(t, p_opt=1.0)
+                slots = [s if (m >> i) & 1 else None for i, s in enumerate(v[1])]
+                vals.append(show(('r', slots)))
+            return vals
+
+        def line(fl, mask, count, acd, ext):
+            rp = rng.randbytes(32).hex()
+            return Case("adat", cfg, f"adat {cfg} {fl} {rp} {mask} {count} {acd} {ext}", tag=fl)
+
+        for fl in ("MC", "GA"):
+            exts = ext_vals(fl)
+            for mask in range(16):
+                out.append(line(fl, mask, rng.choice(counters), "-", rng.choice(exts)))
+            for cnt in counters + [rng.randrange(2 ** 32) for _ in range(3)]:
+                out.append(line(fl, rng.randrange(16), cnt, "-", rng.choice(exts)))
+            for e in exts:
+                out.append(line(fl, 0x0D, 7, "-" if fl == "GA" else f"{'11' * 16}:32:3:{'a5' * 77}", e))
+            if fl == "GA":
+                for e in exts[:3]:
+                    out.append(line(fl, 5, 9, "none", e))
+        # credential id lengths across the capacity threshold, for several key lengths, aaguid 0/16/17
+        idlens = list(range(0, 701)) if ctx.tier == "thorough" else \
+            sorted(set(list(range(0, 40, 7)) + list(range(536, 546)) + list(range(600, 640)) + [255, 256, 300, 676, 700]))
+        for pklen in (0, 77, 256):
+            for aal in (0, 16, 17):
+                for n in idlens:
+                    if ctx.tier == "quick" and (aal != 16) and n % 5:
+                        continue
+                    acd = f"{('cc' * aal) or '-'}:{n}:{rng.randrange(256)}:{('a5' * pklen) or '-'}"
+                    out.append(line("MC", 0x41, n, acd, "-" if n % 3 else show(('r', [None] * len(g.s.res({'named': g.s.roles['adExtMC']})['fields'])))))
+        for n in (65535, 65536, 70000):
+            out.append(line("MC", 0x41, 1, f"{'cc' * 16}:{n}:1:-", "-"))
+    return out
+
+
 NOT_YET = {}
 
 PROPS = {
+    "C07": {"ns": "C07", "cases": cases_c07,
+            "level_text": "Proof. Hand model of AuthenticatorData::serialize / AttestedCredentialData::serialize as a chain of "
+                          "atomic bounded appends (chain_none / chain_some / chain_too_long), with the extension map arriving in "
+                          "any chunking; theorem layout: for every rpIdHash, flag byte, counter < 2^32, optional attested "
+                          "credential data of any lengths and optional extension bytes the result equals the WebAuthn layout "
+                          "(big-endian fields defined by division/remainder in Spec) iff credentialId <= 65535 bytes and the total "
+                          "<= 676, and is an error with no data otherwise. Obligations: capacity constant and flag bits from the "
+                          "source equal the specification's. Correspondence: 16 flag sets, boundary counters, credential-id "
+                          "lengths across the capacity threshold for 3 key lengths x 3 aaguid lengths, 65535/65536/70000, both "
+                          "flavours, every subset of extension outputs.",
+            "rule": "flag masks 0..15, boundary counters, id lengths crossing the 676-byte frontier (all 0..=700 in thorough), "
+                    "aaguid 0/16/17, key 0/77/256, MC and GA flavours, all extension subsets",
+            "assumptions": ["rp_id_hash is a &[u8; 32] by type; the theorem does not need the length",
+                            "flags are built from the four named constants"]},
+    "C17": {"ns": "C17", "cases": cases_c17,
+            "level_text": "Proof. Hand model of Response::serialize (resize to capacity, split status byte, chunked bounded "
+                          "writer, shrink) with the panic site explicit; theorem responseSerialize_spec: for every body, every "
+                          "chunking of it, every capacity >= 1 and every prior buffer content the result is 0x00+body if "
+                          "1+|body| <= cap (empty map collapsing to 0x00) and exactly [0x7F] otherwise; prior-independence and "
+                          "whole-or-error are corollaries. Obligations: error status = 0x7F, variant switch = specification's "
+                          "body-less kinds, in all 8 configurations. Correspondence: every response kind, capacities 1,2,3, a "
+                          "window of +-2 around each body size, transport sizes, three prior-content patterns.",
+            "rule": "every response variant × {minimal, random, sized} values × capacities {1,2,3, size-2..size+2 where the "
+                    "harness has that const-generic instantiation, 64,256,1024,3072,7609} × prior {empty, half, full sentinel}",
+            "assumptions": ["capacity >= 1 (the property's hypothesis; capacity 0 would panic in split_first_mut().unwrap())",
+                            "the serializer's chunking is abstracted: the theorem holds for every chunking"]},
     "C18": {"ns": "C18", "cases": cases_c18,
             "level_text": "Proof. Generic table theorems (G-TABLE: lookupStr_zip_range, indexOf_iff) show that a string / number "
                           "table with pairwise distinct entries accepts exactly the listed spellings / discriminants, for every "
@@ -227,3 +351,70 @@ PROPS = {
                     "non-trivial when the harness could pose it; distinct = distinct case lines",
             "assumptions": ["usize = 64 bit", "dependencies behave as modelled (DESIGN.md App. A)"]},
 }
+
+
+# =============================================================================== generic wire sweeps
+def mutate_bytes(rng, b):
+    b = bytearray(b)
+    if not b:
+        return bytes([rng.randrange(256)])
+    k = rng.randrange(6)
+    i = rng.randrange(len(b))
+    if k == 0:
+        b[i] ^= 1 << rng.randrange(8)
+    elif k == 1:
+        b.insert(i, rng.randrange(256))
+    elif k == 2:
+        del b[i]
+    elif k == 3:
+        del b[i:]
+    elif k == 4:
+        b[i] = rng.choice([0x00, 0x17, 0x18, 0x1f, 0x40, 0x5f, 0x60, 0x7f, 0x80, 0x9f, 0xa0, 0xbf, 0xc0, 0xf4, 0xf5, 0xf6, 0xf7, 0xff])
+    else:
+        j = rng.randrange(len(b))
+        b[i:i] = b[j:j + rng.randrange(1, 6)]
+    return bytes(b)
+
+
+def wire_cases(ctx, cfg, n_per_type, kinds=("enc", "dec", "perm", "extra", "mut"), only=None, salt=0):
+    g = ctx.gen(cfg, salt)
+    rng = g.rng
+    out = []
+    for path, key, t in g.all_refs():
+        if only and not only(path, key, g.s.res(t)):
+            continue
+        r = g.s.res(t)
+        caps = r["caps"]
+        for _ in range(n_per_type):
+            v = g.rand_val(t, p_opt=rng.choice([0.15, 0.5, 0.9]))
+            if "enc" in kinds and caps["ser"] and g.val_buildable(t, v):
+                out.append(Case("enc", cfg, f"enc {cfg} {key} {show(v)}", f"enc {cfg} {path} {show(v)}", tag="value"))
+            if not caps["de"]:
+                continue
+            try:
+                item = g.value_item(t, v)
+            except (ValueError, TypeError, IndexError):
+                continue
+            b = casegen.enc_item(item)
+            if "dec" in kinds:
+                out.append(Case("dec", cfg, f"dec {cfg} {key} {b.hex()}", f"dec {cfg} {path} {b.hex()}", tag="declared order"))
+            if item[0] == 'map' and len(item[1]) > 1:
+                if "perm" in kinds:
+                    ents = list(item[1])
+                    rng.shuffle(ents)
+                    pb = casegen.enc_item(('map', ents))
+                    out.append(Case("dec", cfg, f"dec {cfg} {key} {pb.hex()}", f"dec {cfg} {path} {pb.hex()}", tag="permuted"))
+                    cb = casegen.enc_item(('map', casegen.canon_sort(item[1])))
+                    out.append(Case("dec", cfg, f"dec {cfg} {key} {cb.hex()}", f"dec {cfg} {path} {cb.hex()}", tag="canonical order"))
+            if item[0] == 'map' and "extra" in kinds and "text" in r:
+                ents = list(item[1])
+                pos = rng.randint(0, len(ents))
+                name = rng.choice(["transports", "credBlob", "minPinLength", "credProps", "hmac-secret-mc", "prf", "zz", ""])
+                ents.insert(pos, (('text', name.encode()), g.rand_unknown_item(3)))
+                eb = casegen.enc_item_ext(('map', ents))
+                out.append(Case("dec", cfg, f"dec {cfg} {key} {eb.hex()}", f"dec {cfg} {path} {eb.hex()}", tag="unknown member"))
+            if "mut" in kinds:
+                for _ in range(3):
+                    mb = mutate_bytes(rng, b)
+                    out.append(Case("dec", cfg, f"dec {cfg} {key} {mb.hex() or '-'}", f"dec {cfg} {path} {mb.hex() or '-'}", tag="byte mutation", oracle_applies=True))
+    return out
